@@ -369,7 +369,12 @@ struct World
         {
             const burst& b = bursts[ ev - EV_FIRST_BURST ];
             for ( unsigned i = 0; i != b.n; ++i ) { if ( b.k[ i ] == P_TERM ) ref.f_term = 1; if ( b.k[ i ] == P_UPD ) ref.f_update = 1; }
-            if ( !deliver( b ) ) { c.fail( "harness:burst-not-taken", "receive buffer too small for " + burst_text( b ) ); return true; }
+            if ( !deliver( b ) )
+            {   // only happens while received control PDUs pile up behind a deferred LL_CONNECTION_UPDATE_IND that never takes effect
+                // (instant handling, C21): the central would retransmit later - outside of this world, the branch ends here
+                c.prune = true; c.cls( "receive buffer full behind a blocked deferred update (C21)" ); c.obs = log_text();
+                return true;
+            }
             event_happened = true;
             break;
         }
